@@ -7,6 +7,7 @@ import Afkak.Monitor.C07
 import Afkak.Monitor.C11
 import Afkak.Monitor.C20
 import Afkak.ClientCompose
+import Afkak.ClientQuery
 import Driver.Util
 /-!
 Line-protocol driver for the `client` component (exe `model_client`).
@@ -177,6 +178,15 @@ def monStep (ws : List String) : Option (List String) :=
     let before ← parseCache (rest.take 6)
     let after ← parseCache (rest.drop 6)
     some (verdict (Afkak.Monitor.C08.brokersKept before after))
+  | ["mon-query", ts, ans] => do
+    -- client-A (C08, session 5): the real query methods' answers for the topics a response covered
+    let ts ← parseTopics ts
+    let ans ← (splitList "," ans).mapM (fun e => do
+      let (k, v) ← parseEq e
+      match v.splitOn ":" with
+      | [h, er] => some (k, (← parseBool h), (← er.toInt?))
+      | _ => none)
+    some (verdict (Afkak.ClientQuery.queryMirror ts ans))
   | "mon-allinvalid" :: rest => do
     let c ← parseCache rest
     some (verdict (Afkak.Monitor.C08.allInvalid c))
@@ -539,6 +549,11 @@ structure St where
 def cacheStep (c : Cache) (ws : List String) : Option (Cache × List String) :=
   match ws with
   | ["reset"] => some ({}, ["ok"])
+  | ["query", ts] =>
+    -- client-A (C08, session 5): the cache query methods answered from the model's cache, one line per topic
+    some (c, (splitList "+" ts).map (fun t =>
+      s!"q {t} {if Afkak.ClientQuery.hasMetadataForTopic c t then 1 else 0} {Afkak.ClientQuery.metadataErrorForTopic c t}")
+      ++ ["groups " ++ showList ((Afkak.ClientQuery.consumerGroupToBrokers c).map (fun e => s!"{e.1}=" ++ showBroker e.2))])
   | ["dump"] => some (c, dump c)
   | ["merge", all, bs, ts] => do
     let (c', closed) := mergeTopicMetadata c (← parseBrokers bs) (← parseTopics ts) (← parseBool all)
